@@ -44,6 +44,16 @@ Proof.
   intros NT E ST. apply inv_settled; auto. eapply exec_inv; eauto. apply Inv_init.
 Qed.
 
+Theorem reported_is_routed sched s c x :
+  no_timeout sched = true -> exec sched init = Some s ->
+  lookup c (chans s) = Some x -> c_sub x = true -> hub s c = Some (c_gen x).
+Proof.
+  intros NT E L SX.
+  assert (I : Inv s) by (eapply exec_inv; eauto; apply Inv_init).
+  pose proof (i_chans _ _ _ _ _ _ _ _ I _ _ L) as P. rewrite SX in P. destruct P as [GL _].
+  eapply (i_live_hub _ _ _ _ _ _ _ _ I); eauto.
+Qed.
+
 (* ---- the timeout path: a stalled attempt loses its reservation, a fresh attempt reserves
    the channel, the stalled one resumes and reads the FRESH generation from c.channels
    (subscribeCmd: subGen := c.channels[channel].subGen), registers it in the hub, and its
@@ -92,4 +102,16 @@ Proof.
   destruct (exec timeout_witness init) as [s|] eqn:E; [|vm_compute in E; discriminate].
   exists s. split; auto.
   vm_compute in E. inv E. vm_compute. repeat split; reflexivity.
+Qed.
+
+Theorem exec_inv_init sched s : no_timeout sched = true -> exec sched init = Some s -> Inv s.
+Proof. intros. eapply exec_inv; eauto. apply Inv_init. Qed.
+
+Theorem timeout_refuted :
+  exists sched s,
+    exec sched init = Some s /\ all_finished s = true /\
+    hub s 0 = Some 2 /\ is_subscribed s 0 = false /\ delivered s 0 = 1.
+Proof.
+  destruct timeout_witness_breaks as (s & E & F & _ & H & _ & S & D).
+  exists timeout_witness, s. auto.
 Qed.
